@@ -763,7 +763,14 @@ public:
     if (const CXXRecordDecl *rd = t->getBaseElementTypeUnsafe()->getAsCXXRecordDecl())
       if (rd->hasDefinition()) hasMutable = rd->hasMutableFields();
     o["has_mutable_fields"] = hasMutable;
-    if (vd->hasInit() && !vd->getInit()->isValueDependent()) o["constinit"] = vd->hasConstantInitialization();
+    if (vd->hasInit() && !vd->getInit()->isValueDependent()) {
+      o["constinit"] = vd->hasConstantInitialization();
+      if (vd->getType()->isIntegralOrEnumerationType()) {
+        Expr::EvalResult r;
+        if (vd->getInit()->EvaluateAsInt(r, mCtx) && r.Val.isInt() && r.Val.getInt().isSignedIntN(64))
+          o["val"] = r.Val.getInt().getExtValue();
+      }
+    }
     o["did"] = (int64_t)(uintptr_t)vd->getCanonicalDecl() & 0xffffffff;
     mVars.push_back(std::move(o));
   }
